@@ -8,7 +8,7 @@ RULE = ("programs: the whole UgoSem corpus (closures, calls, recursion, assignme
         "with the TLA+ reference outcome; constant kinds: 32 constant tokens (extreme ints, NaN / +-Inf / -0 / denormal floats, "
         "chars incl. \\x00 and U+10FFFF, empty / non-UTF-8 / NUL strings, bytes, nested literals) x 9 positions (main, function "
         "constant, nested function, source module, literal element, map value, argument, captured variable, next to a builtin "
-        "module with every value type) compared bit-exactly; non-trivial = every case")
+        "module with every value type) compared bit-exactly; non-trivial = every case; held bytes: what MarshalBinary returned is decoded only after three further programs were encoded")
 
 def run(ctx):
     cfgs = ["default", "default+rt", "default+rt+rt"] if ctx.quick else ["default", "noopt", "default+rt", "noopt+rt", "default+rt+rt"]
